@@ -1,7 +1,7 @@
 (* C17 -- unbounded proof about the locals model (Model/AirLocals.v): in every lowered function of
    every program each id is declared once, the parameter list has no duplicates, and every id
    mentioned by a statement or terminator is declared or is a parameter. *)
-From Aelys Require Import Base.Tactics Model.AirLower Model.AirLocals Proofs.AirLowerProofs.
+From Aelys Require Import Base.Tactics Extracted.LowerFlags Model.AirLower Model.AirLocals Proofs.AirLowerProofs.
 Local Open Scope N_scope.
 
 Definition lok (f : lfn_out) : Prop := locals_ok f = true.
@@ -63,6 +63,23 @@ Proof.
   unfold LI; cbn. split; [exact ND|split; [exact LT|split; [exact NM|split; [|exact OK]]]].
   intros i Hi. apply in_app_or in Hi as [Hi|Hi]; [apply H; apply in_rev; exact Hi|apply MT; exact Hi].
 Qed.
+
+Lemma in_keep_oldest {A} n (l : list A) x : In x (keep_oldest n l) -> In x l.
+Proof.
+  unfold keep_oldest. generalize (length l - n)%nat. intro k. revert l.
+  induction k as [|k IH]; intros l H; [exact H|]. destruct l as [|y r]; [exact H|]. right. apply IH. exact H.
+Qed.
+
+Lemma lrestore_LI E n s : LI E s -> LI E (lrestore_names n s) /\ ext s (lrestore_names n s).
+Proof.
+  intros (ND & LT & NM & MT & OK). unfold lrestore_names. split; [|split; cbn; [auto|lia]].
+  unfold LI; cbn. split; [exact ND|split; [exact LT|split; [|split; [exact MT|exact OK]]]].
+  intros x i H. apply in_keep_oldest in H. eapply NM; exact H.
+Qed.
+Lemma lscope_block_LI E n s : LI E s -> LI E (lscope_block n s) /\ ext s (lscope_block n s).
+Proof. intro H. unfold lscope_block. destruct BLOCK_SCOPES_NAMES; [apply lrestore_LI; exact H|split; [exact H|apply ext_refl]]. Qed.
+Lemma lscope_loop_LI E n s : LI E s -> LI E (lscope_loop n s) /\ ext s (lscope_loop n s).
+Proof. intro H. unfold lscope_loop. destruct LOOP_SCOPES_NAMES; [apply lrestore_LI; exact H|split; [exact H|apply ext_refl]]. Qed.
 
 Lemma lookup_In E x s i : LI E s -> lookup x s = Some i -> In i (l_locals s).
 Proof.
@@ -338,8 +355,10 @@ Proof.
   destruct (IHst E s6 A9) as (A10 & B10 & C10). destruct (llower_expr st s6) as [st_o s7]. cbn [fst snd] in *.
   assert (I7 : In it (l_locals s7)).
   { eapply ext_in; [exact B10|]. eapply ext_in; [exact B9|]. rewrite E8. exact I5. }
-  destruct (ment_step E s7 (it :: it :: opl st_o) A10) as (A11 & B11 & _).
+  destruct (ment_step E s7 (it :: it :: opl st_o) A10) as (A11' & B11' & _).
   { intros i [<-|[<-|Hi]]; [left; exact I7|left; exact I7|eapply opl_ok; eassumption]. }
+  destruct (lscope_loop_LI E (length (l_names s)) _ A11') as [A11 B11s].
+  assert (B11 : ext s7 (lscope_loop (length (l_names s)) (mention (it :: it :: opl st_o) s7))) by (eapply ext_trans; eassumption).
   split; [exact A11|].
   eapply ext_trans; [exact B1|]. eapply ext_trans; [exact B2|]. eapply ext_trans; [exact B3|].
   eapply ext_trans; [exact B4|]. eapply ext_trans; [exact B5|]. eapply ext_trans; [exact B6|].
@@ -378,7 +397,9 @@ Proof.
   set (s7 := llower_stmt b (mention [cd; idx; len; cd; el; col; idx] s6)) in *.
   assert (Hidx7 : In idx (l_locals s7)).
   { eapply ext_in; [exact B11|]. rewrite E10. apply H6. cbn; tauto. }
-  destruct (ment_step E s7 [idx; idx] A11) as (A12 & B12 & _); [intros i [<-|[<-|[]]]; left; exact Hidx7|].
+  destruct (ment_step E s7 [idx; idx] A11) as (A12' & B12' & _); [intros i [<-|[<-|[]]]; left; exact Hidx7|].
+  destruct (lscope_loop_LI E (length (l_names s)) _ A12') as [A12 B12s].
+  assert (B12 : ext s7 (lscope_loop (length (l_names s)) (mention [idx; idx] s7))) by (eapply ext_trans; eassumption).
   split; [exact A12|].
   eapply ext_trans; [exact B1|]. eapply ext_trans; [exact B2|]. eapply ext_trans; [exact B3|].
   eapply ext_trans; [exact B4|]. eapply ext_trans; [exact B5|]. eapply ext_trans; [exact B6|].
@@ -420,7 +441,8 @@ Proof.
     destruct (ment_step E s2 (i :: opl o) A2) as (A3 & B3 & _).
     { intros j [<-|Hj]; [left; eapply ext_in; eassumption|eapply opl_ok; eassumption]. }
     split; [exact A3|]. eapply ext_trans; [exact B|]. eapply ext_trans; [exact B2|exact B3].
-  - intros b IH E s HL. apply IH. exact HL.
+  - intros b IH E s HL. cbn [llower_stmt]. destruct (IH E s HL) as [A B].
+    destruct (lscope_block_LI E (length (l_names s)) _ A) as [A2 B2]. split; [exact A2|eapply ext_trans; eassumption].
   - intros c IHc t IHt E s HL. cbn [llower_stmt].
     destruct (IHc E s HL) as (A & B & C). destruct (llower_expr c s) as [o s1]. cbn [fst snd] in *.
     destruct (ment_step E s1 (opl o) A) as (A2 & B2 & _); [eapply opl_ok; exact C|].
